@@ -132,6 +132,8 @@ type Engine struct {
 	MaxActions       int
 	Bound            time.Duration // liveness bound for the whole run (fake time)
 
+	// Ver is bumped by a scenario when something the engine cannot see has happened (an operator call returned).
+	Ver int
 	// HoldAcrossTimers: a held goroutine stays held while fake time passes (up to the hold cap) when nothing else is
 	// due, so that the emulator's own timers can fire meanwhile.
 	HoldAcrossTimers bool
@@ -874,6 +876,7 @@ func (e *Engine) worldVersion() int {
 		}
 	}
 	r.mu.Unlock()
+	n += 7 * e.Ver
 	s := e.w.Sup
 	s.mu.Lock()
 	n += 1000 * len(s.Reqs)
